@@ -644,20 +644,16 @@ func checkEventLevels(senderLevel int64, oldPowerLevels, newPowerLevels PowerLev
 	}
 
 	// Then add checks for each event key in the new levels.
-	// We use the default values for non-state events when applying the checks.
-	// TODO: the per event levels do not distinguish between state and non-state events.
-	// However the default values do make that distinction. We may want to change this.
-	// For example if there is an entry for "my.custom.type" events it sets the level
-	// for sending the event with and without a "state_key". But if there is no entry
-	// for "my.custom.type it will use the state default when sent with a "state_key"
-	// and will use the event default when sent without.
-	const (
-		isStateEvent = false
-	)
+	// An entry for "my.custom.type" sets the level for sending the event with and
+	// without a "state_key". If there is no entry, the state default applies when
+	// it is sent with a "state_key" and the events default when it is sent
+	// without. Adding or removing an entry therefore changes two levels, and both
+	// are checked: an entry equal to the events default could otherwise be removed
+	// by anybody, handing the event type over to the (lower) state default.
 	// The entries of the "events" map themselves are compared. EventLevel is not
 	// used because it answers m.room.third_party_invite with the invite level
 	// whatever the map says, which would let anybody rewrite that entry.
-	eventsEntry := func(c PowerLevelContent, eventType string) int64 {
+	eventsEntry := func(c PowerLevelContent, eventType string, isStateEvent bool) int64 {
 		if level, ok := c.Events[eventType]; ok {
 			return level
 		}
@@ -666,21 +662,23 @@ func checkEventLevels(senderLevel int64, oldPowerLevels, newPowerLevels PowerLev
 		}
 		return c.EventsDefault
 	}
-	for eventType := range newPowerLevels.Events {
-		levelChecks = append(levelChecks, levelPair{
-			eventsEntry(oldPowerLevels, eventType),
-			eventsEntry(newPowerLevels, eventType),
-		})
-	}
+	for _, isStateEvent := range []bool{false, true} {
+		for eventType := range newPowerLevels.Events {
+			levelChecks = append(levelChecks, levelPair{
+				eventsEntry(oldPowerLevels, eventType, isStateEvent),
+				eventsEntry(newPowerLevels, eventType, isStateEvent),
+			})
+		}
 
-	// Then add checks for each event key in the old levels.
-	// Some of these will be duplicates of the ones added using the keys from
-	// the new levels. But it doesn't hurt to run the checks twice for the same level.
-	for eventType := range oldPowerLevels.Events {
-		levelChecks = append(levelChecks, levelPair{
-			eventsEntry(oldPowerLevels, eventType),
-			eventsEntry(newPowerLevels, eventType),
-		})
+		// Then add checks for each event key in the old levels.
+		// Some of these will be duplicates of the ones added using the keys from
+		// the new levels. But it doesn't hurt to run the checks twice for the same level.
+		for eventType := range oldPowerLevels.Events {
+			levelChecks = append(levelChecks, levelPair{
+				eventsEntry(oldPowerLevels, eventType, isStateEvent),
+				eventsEntry(newPowerLevels, eventType, isStateEvent),
+			})
+		}
 	}
 
 	// Check each of the levels in the list.
